@@ -158,13 +158,13 @@ def run(tier, seed):
     jobs = min(core.NCPU, 8 if quick else 14)
 
     lit_cfgs = ["ConstLiteral_q5"] if quick else ["ConstLiteral_int7", "ConstLiteral_flt6", "ConstLiteral_big4"]
-    fold_cfgs = ["ConstFold_t3", "ConstFold_t4s"] if quick else ["ConstFold_t3", "ConstFold_t4", "ConstFold_t5"]
+    fold_cfgs = ["ConstFold_q"] if quick else ["ConstFold_t3", "ConstFold_t4", "ConstFold_t5"]
     seq_cfgs = ["ConstSeq_q"] if quick else ["ConstSeq_t"]
     pool_cfgs = ["ConstPool_q"] if quick else ["ConstPool_t", "ConstPool_t2"]
     todo = [("ConstLiteral", c) for c in lit_cfgs] + [("ConstFold", c) for c in fold_cfgs] + [("ConstPool", c) for c in pool_cfgs] + \
         [("ConstSeq", c) for c in seq_cfgs]
     tl = {}
-    with concurrent.futures.ThreadPoolExecutor(max_workers=3 if quick else 4) as ex:
+    with concurrent.futures.ThreadPoolExecutor(max_workers=4) as ex:
         futs = {ex.submit(tlc_job, m, c, None, 1700, True): (m, c) for m, c in todo}
         for fu in concurrent.futures.as_completed(futs):
             m, c = futs[fu]
